@@ -639,17 +639,13 @@ def step (lib : Lib) (rec : Expr → Outs) (e : Expr) : Outs :=
     match th with
     | .threadv e => rec e
     | _ => [.unk]
-  | .subrun e ne =>
+  | .subrun e _ =>
     (rec e).flatMap fun
       | .ok v =>
         bindO (rec (.dict [.str "result"] [v])) fun
           | .dict [_] [v'] => [.ok v']
           | _ => [.unk]
-      | .err x =>
-        if ne then [.err x]
-        else bindO (rec (.dict [.str "error"] [.errv x])) fun
-          | .dict [_] [.errv y] => [.err y]
-          | _ => [.unk]
+      | .err x => [.err x]
       | .unk => [.unk]
   | .settle e => (rec e).map settleOut
 
@@ -786,16 +782,13 @@ inductive Eval (lib : Lib) : Expr → Out → Prop
   -- fork_thread returns a Thread at once, whatever becomes of `e`; join_thread is the thread's outcome
   | fork {e} : Eval lib (.fork e) (.ok (.threadv e))
   | join {e r} : Eval lib e r → Eval lib (.join (.threadv e)) r
-  -- subrun: the inner scheduler evaluates `e`; its outcome travels back as a record that the outer scheduler
-  -- evaluates (as any task result) before `subrun.then` unwraps it
+  -- subrun: the inner scheduler evaluates `e`; a value travels back inside the record `_subrun_root_task` returns,
+  -- which the outer scheduler evaluates (as any task result) before `subrun.then` unwraps it; an error makes the
+  -- `_subrun_root_task` job itself fail, for a new execution (`run` raises) and for an extended one alike
   | subrunOk {e ne v k v'} : Eval lib e (.ok v) → Eval lib (.dict [.str "result"] [v]) (.ok (.dict [k] [v'])) →
       Eval lib (.subrun e ne) (.ok v')
   | subrunOkErr {e ne v x} : Eval lib e (.ok v) → Eval lib (.dict [.str "result"] [v]) (.err x) →
       Eval lib (.subrun e ne) (.err x)
-  | subrunErrNew {e x} : Eval lib e (.err x) → Eval lib (.subrun e true) (.err x)
-  | subrunErrExt {e x k y} : Eval lib e (.err x) →
-      Eval lib (.dict [.str "error"] [.errv x]) (.ok (.dict [k] [.errv y])) → Eval lib (.subrun e false) (.err y)
-  | subrunErrExtErr {e x y} : Eval lib e (.err x) →
-      Eval lib (.dict [.str "error"] [.errv x]) (.err y) → Eval lib (.subrun e false) (.err y)
+  | subrunErr {e ne x} : Eval lib e (.err x) → Eval lib (.subrun e ne) (.err x)
 
 end RedunModel.EvalCore
